@@ -20,6 +20,12 @@
 //	              the locked global source; `rand.New`/`NewSource` are listed too)
 //	goCodeWrites  (engine function, target) of assignments through a value whose declared type
 //	              comes from package bytecode or ast (the compiled program a Run shares)
+//	goLockHolders (function, mutex): the function's first two statements are `M.Lock()` and
+//	              `defer M.Unlock()` for the package-level mutex M (position in goGlobals), so it
+//	              holds M for its whole body, panics included
+//	goInitFirst   (holder function, variable): after that prologue the function assigns the
+//	              package-level variable (position in goGlobals) a value that does not depend on
+//	              it, before any statement that mentions the variable or any libvore function
 //
 // It fails closed: a package-level variable it cannot classify (non-scalar type that is passed
 // around, a composite-literal key that may name it, a method call on it …) is an error, never
@@ -28,6 +34,7 @@ package main
 
 import (
 	"bytes"
+	"encoding/json"
 	"flag"
 	"fmt"
 	"go/ast"
@@ -69,10 +76,11 @@ func exprString(e ast.Node) string {
 }
 
 type global struct {
-	pkg, name, typ, file string
-	line                 int
-	scalar, mutex, init  bool
-	spec                 *ast.ValueSpec
+	pkg, name, typ, file              string
+	line                              int
+	scalar, mutex, init               bool
+	idx, lockCalls                    int
+	spec                              *ast.ValueSpec
 	assigned, incremented, addr, read map[int]bool
 }
 
@@ -96,17 +104,19 @@ type pkgInfo struct {
 }
 
 var (
-	pkgs       = map[string]*pkgInfo{}
-	funcs      []*fn
-	methodsBy  = map[string][]*fn{} // method short name -> all methods, all packages
-	globalsAll []*global
-	goStmts    = map[int]bool{}
-	mutexDecls []string
-	lockCalls  [][2]string
-	syncUses   [][2]string
-	randCalls  [][2]string
-	codeWrites [][2]string
-	skipped    []string
+	pkgs        = map[string]*pkgInfo{}
+	funcs       []*fn
+	methodsBy   = map[string][]*fn{} // method short name -> all methods, all packages
+	globalsAll  []*global
+	lockHolders [][2]int
+	initFirst   [][2]int
+	goStmts     = map[int]bool{}
+	mutexDecls  []string
+	lockCalls   [][2]string
+	syncUses    [][2]string
+	randCalls   [][2]string
+	codeWrites  [][2]string
+	skipped     []string
 )
 
 func buildOK(f *ast.File) bool {
@@ -234,6 +244,7 @@ func load(root string) {
 									mutexDecls = append(mutexDecls, p.label+"."+nm.Name+" "+g.typ)
 								}
 								p.globals[nm.Name] = g
+								g.idx = len(globalsAll)
 								globalsAll = append(globalsAll, g)
 							}
 						}
@@ -528,6 +539,7 @@ func (w *walker) Visit(n ast.Node) ast.Visitor {
 				if g, id := w.lvalueGlobal(se.X); g != nil && g.mutex {
 					w.done[id] = true
 					g.read[w.f.id] = true
+					g.lockCalls++
 				}
 			}
 		}
@@ -579,6 +591,101 @@ func (w *walker) readGlobal(g *global, at ast.Node, id *ast.Ident) {
 	}
 }
 
+// mentionsCode: does the node mention the variable g, any other package-level variable, or
+// anything that may be a libvore function or method (i.e. may run code that touches g)?
+func (w *walker) mentionsCode(n ast.Node, allow *ast.Ident) bool {
+	found := false
+	ast.Inspect(n, func(x ast.Node) bool {
+		switch t := x.(type) {
+		case *ast.FuncLit:
+			found = true
+		case *ast.SelectorExpr:
+			if len(methodsBy[t.Sel.Name]) > 0 {
+				found = true
+			}
+			if xi, ok := t.X.(*ast.Ident); ok && xi.Obj == nil {
+				if lbl := libLabel(w.imports[xi.Name]); lbl != "" {
+					found = true
+				}
+			}
+		case *ast.Ident:
+			if t == allow {
+				return true
+			}
+			if (t.Obj == nil || t.Obj.Kind == ast.Fun) && len(w.p.funcs[t.Name]) > 0 {
+				found = true
+			}
+			if w.globalOf(t) != nil {
+				found = true
+			}
+		}
+		return !found
+	})
+	return found
+}
+
+// lockPrologue: `M.Lock()` then `defer M.Unlock()` as the first two statements
+func (w *walker) lockPrologue(body *ast.BlockStmt) *global {
+	if len(body.List) < 2 {
+		return nil
+	}
+	es, ok := body.List[0].(*ast.ExprStmt)
+	if !ok {
+		return nil
+	}
+	call, ok := es.X.(*ast.CallExpr)
+	if !ok || len(call.Args) != 0 {
+		return nil
+	}
+	se, ok := call.Fun.(*ast.SelectorExpr)
+	if !ok || se.Sel.Name != "Lock" {
+		return nil
+	}
+	mid, ok := se.X.(*ast.Ident)
+	if !ok {
+		return nil
+	}
+	g := w.globalOf(mid)
+	if g == nil || !g.mutex || strings.HasPrefix(g.typ, "*") {
+		return nil
+	}
+	ds, ok := body.List[1].(*ast.DeferStmt)
+	if !ok || len(ds.Call.Args) != 0 {
+		return nil
+	}
+	se2, ok := ds.Call.Fun.(*ast.SelectorExpr)
+	if !ok || se2.Sel.Name != "Unlock" {
+		return nil
+	}
+	mid2, ok := se2.X.(*ast.Ident)
+	if !ok || w.globalOf(mid2) != g {
+		return nil
+	}
+	return g
+}
+
+func (w *walker) holderFacts() {
+	body := w.f.decl.Body
+	m := w.lockPrologue(body)
+	if m == nil {
+		return
+	}
+	lockHolders = append(lockHolders, [2]int{w.f.id, m.idx})
+	for _, st := range body.List[2:] {
+		if as, ok := st.(*ast.AssignStmt); ok && as.Tok == token.ASSIGN && len(as.Lhs) == 1 && len(as.Rhs) == 1 {
+			if id, ok := as.Lhs[0].(*ast.Ident); ok {
+				if g := w.globalOf(id); g != nil && !w.mentionsCode(as.Rhs[0], nil) {
+					initFirst = append(initFirst, [2]int{w.f.id, g.idx})
+					continue
+				}
+			}
+		}
+		if w.mentionsCode(st, nil) {
+			break
+		}
+	}
+}
+
 func leanStr(s string) string {
 	var b strings.Builder
 	b.WriteByte('"')
@@ -614,6 +721,7 @@ func natList(m map[int]bool) string {
 
 func main() {
 	out := flag.String("o", "", "output file (default stdout)")
+	jsonOut := flag.String("json", "", "also write the facts as JSON (diagnostics for the check driver)")
 	flag.Parse()
 	root := "/repo"
 	if flag.NArg() > 0 {
@@ -630,6 +738,30 @@ func main() {
 			w.taintFields(f.decl.Type.Params)
 		}
 		ast.Walk(w, f.decl.Body)
+		w.holderFacts()
+	}
+	// a holder holds M for its whole body only if nobody else locks or unlocks M: the two
+	// calls of each prologue must be the only Lock/Unlock calls on M in the package
+	for _, g := range globalsAll {
+		if !g.mutex {
+			continue
+		}
+		n := 0
+		for _, h := range lockHolders {
+			if h[1] == g.idx {
+				n++
+			}
+		}
+		if g.lockCalls != 2*n {
+			kept := [][2]int{}
+			for _, h := range lockHolders {
+				if h[1] != g.idx {
+					kept = append(kept, h)
+				}
+			}
+			lockHolders = kept
+			fmt.Fprintf(os.Stderr, "extractglobals: note: %s.%s is locked/unlocked outside a `Lock(); defer Unlock()` prologue: no function counts as holding it for its whole body\n", g.pkg, g.name)
+		}
 	}
 	// package-level initialisers run before main (Go's init order happens-before every goroutine);
 	// they are recorded (`initialised`) but are not writes of a call
@@ -691,9 +823,6 @@ func main() {
 		fmt.Fprintf(&b, "  { pkg := %s, name := %s, typ := %s, scalar := %v, isMutex := %v, initialised := %v, file := %s, line := %d,\n    assignedBy := %s, incrementedBy := %s, addrTakenBy := %s, readBy := %s }%s\n",
 			leanStr(g.pkg), leanStr(g.name), leanStr(g.typ), g.scalar, g.mutex, g.init, leanStr(g.file), g.line,
 			natList(g.assigned), natList(g.incremented), natList(g.addr), natList(g.read), sep)
-		for id := range g.assigned {
-			fmt.Fprintf(os.Stderr, "extractglobals: note: %s.%s is written by %s\n", g.pkg, g.name, funcs[id].name)
-		}
 	}
 	b.WriteString("]\n\n/-- functions containing a `go` statement -/\ndef goGoStmts : List Nat := " + natList(goStmts) + "\n\n")
 	strList := func(xs []string) string {
@@ -715,7 +844,59 @@ func main() {
 	b.WriteString("def goSyncUses : List (String × String) := " + pairList(syncUses) + "\n\n")
 	b.WriteString("/-- calls of math/rand package-level functions (the locked global source) -/\ndef goRandCalls : List (String × String) := " + pairList(randCalls) + "\n\n")
 	b.WriteString("/-- engine functions assigning through a value of a bytecode / ast type -/\ndef goCodeWrites : List (String × String) := " + pairList(codeWrites) + "\n\n")
+	intPairs := func(xs [][2]int) string {
+		ps := []string{}
+		for _, x := range xs {
+			ps = append(ps, fmt.Sprintf("(%d, %d)", x[0], x[1]))
+		}
+		return "[" + strings.Join(ps, ", ") + "]"
+	}
+	b.WriteString("/-- (function, mutex): the body starts with `M.Lock(); defer M.Unlock()`; mutex = position in `goGlobals` -/\ndef goLockHolders : List (Nat × Nat) := " + intPairs(lockHolders) + "\n\n")
+	b.WriteString("/-- (holder, variable): right after that prologue the holder assigns the variable (position in `goGlobals`) -/\ndef goInitFirst : List (Nat × Nat) := " + intPairs(initFirst) + "\n\n")
 	b.WriteString("end Vore.ExtractedGlobals\n")
+	if *jsonOut != "" {
+		type jg struct {
+			Pkg, Name, Type, File                          string
+			Line                                           int
+			Scalar, Mutex                                  bool
+			AssignedBy, IncrementedBy, AddrTakenBy, ReadBy []int
+		}
+		ids := func(m map[int]bool) []int {
+			xs := []int{}
+			for k := range m {
+				xs = append(xs, k)
+			}
+			sort.Ints(xs)
+			return xs
+		}
+		doc := struct {
+			Funcs       []string
+			Calls       [][]int
+			Entries     []string
+			Globals     []jg
+			GoStmts     []int
+			LockHolders [][2]int
+			InitFirst   [][2]int
+			RandCalls   [][2]string
+			CodeWrites  [][2]string
+			LockCalls   [][2]string
+			Skipped     []string
+		}{Entries: entryNames, GoStmts: ids(goStmts), LockHolders: lockHolders, InitFirst: initFirst, RandCalls: randCalls,
+			CodeWrites: codeWrites, LockCalls: lockCalls, Skipped: skipped}
+		for _, f := range funcs {
+			doc.Funcs = append(doc.Funcs, f.name)
+			doc.Calls = append(doc.Calls, ids(f.calls))
+		}
+		for _, g := range globalsAll {
+			doc.Globals = append(doc.Globals, jg{g.pkg, g.name, g.typ, g.file, g.line, g.scalar, g.mutex,
+				ids(g.assigned), ids(g.incremented), ids(g.addr), ids(g.read)})
+		}
+		js, _ := json.MarshalIndent(doc, "", " ")
+		if err := os.WriteFile(*jsonOut, js, 0o644); err != nil {
+			fmt.Fprintln(os.Stderr, err)
+			os.Exit(1)
+		}
+	}
 	if *out == "" {
 		fmt.Print(b.String())
 		return
